@@ -418,8 +418,22 @@ def coerce_hint_any(hint: Hint) -> Hint:
         #FIXME: [SPEED] Globalize the
         #_hint_repr_to_hint.cache_or_get_cached_value() bound method and call
         #that globalized bound method here instead as a negligible speedup.
-        hint = _hint_repr_to_hint.cache_or_get_cached_value(  # type: ignore[return-value]
+        hint_cached = _hint_repr_to_hint.cache_or_get_cached_value(
             key=get_hint_repr(hint), value=hint)
+
+        # Replace this hint by the previously cached hint sharing the same
+        # representation *ONLY* if that hint is actually a copy of this hint.
+        # Dissimilar hints can share the same representation (e.g., "list[K]"
+        # subscripted by two distinct classes both named "K", as when a class
+        # is redefined or created by a class factory); substituting one for
+        # the other would type-check against the wrong class.
+        try:
+            if hint_cached is hint or hint_cached == hint:
+                hint = hint_cached  # type: ignore[assignment]
+        # If comparing these hints raises an exception (e.g., due to
+        # uncomparable metadata), preserve this hint as is.
+        except Exception:
+            pass
     # Else, this hint is (hopefully) self-caching.
 
     # ..................{ RETURN                             }..................
